@@ -161,8 +161,9 @@ def run(ctx):
                     common.add_violation(ctx, 'the .ins file handed to SHELXL contains ACTA', case, 'no ACTA', [t for t in toks if t[0].upper().startswith('ACTA')])
                     continue
                 cyc = [t for t in toks if t[0].upper() in ('L.S.', 'CGLS')]
-                if cycles is not None and cyc and (len(cyc[0]) < 2 or int(float(cyc[0][1])) != cycles):
-                    common.add_violation(ctx, 'the .ins file does not carry the requested number of cycles', case, cycles, cyc[0])
+                # with several cycles instructions in a file the last one counts
+                if cycles is not None and cyc and (len(cyc[-1]) < 2 or int(float(cyc[-1][1])) != cycles):
+                    common.add_violation(ctx, 'the .ins file does not carry the requested number of cycles', case, cycles, cyc[-1])
                     continue
                 exp = [t for t in (l['tokens'] for l in rf.independent_lex(text) if l['tokens']) if not t[0].upper().startswith('ACTA')]
                 if [t[0].upper() for t in keys_coalesced(toks)] != [t[0].upper() for t in keys_coalesced(exp)]:
